@@ -29,6 +29,18 @@
 //!             `reg.gap.pre` point of Registry::get_or_create_* (between dropping the shard read guard and
 //!             taking the write guard) until all N threads are there, i.e. the schedule in which every thread
 //!             misses the key under the read guard (if the point is not reached, nothing is parked).
+//!        drains --a-free R1 --a-gated R2 --b-gated R3 --b-free R4 --listed 0|1 --out F
+//!             concurrent snapshots of ONE histogram through clones of one Snapshotter (real threads); values
+//!             1..N are recorded, all distinct; every snapshot's histogram values are logged (`drain` event) and TLC
+//!             checks: never a value twice, none invented, and -- when no record() overlapped a snapshot -- every
+//!             value exactly once.
+//!             A  N values recorded, recording stops, K threads released by a spin barrier take one snapshot each,
+//!                then a final snapshot (strict).  gated: each thread is parked at the bucket's `clr.load.pre`
+//!                point (entry of clear_with, before the tail is loaded) until all K are there.
+//!             B-gated  writer and snapshotter in hand-shake: the snapshotter is parked at `clr.load.pre` while
+//!                the writer records one more value (record() returns before the snapshot goes on), so no push
+//!                overlaps the drain (strict).
+//!             B-free  a writer records while another thread keeps snapshotting (not strict: see DrainOK).
 use metrics::{Counter, Gauge, Histogram, Key, KeyName, Label, Level, Metadata, Recorder, SharedString, Unit};
 use metrics_util::debugging::{DebugValue, DebuggingRecorder, Snapshotter};
 use metrics_util::MetricKind;
@@ -666,6 +678,282 @@ fn run_rounds(n: usize, rounds: usize, gated: bool, base: usize, out: &mut Write
     (events, bad, timeouts.load(AO::Relaxed))
 }
 
+// ------------------------------------------------------------------------------------------------ concurrent drains
+use std::sync::atomic::AtomicBool;
+
+thread_local! {
+    static GATE_ARMED: std::cell::Cell<bool> = std::cell::Cell::new(false);
+}
+
+/// histogram values of the single metric of the recorder (None: the snapshot does not have that shape)
+fn hist_values(s: &Snapshotter) -> Option<Vec<i64>> {
+    let v = s.snapshot().into_vec();
+    if v.len() != 1 {
+        return None;
+    }
+    match &v[0].3 {
+        DebugValue::Histogram(vs) if v[0].0.kind() == MetricKind::Histogram => Some(vs.iter().map(|x| f_int(x.into_inner())).collect()),
+        _ => None,
+    }
+}
+
+fn wait_for(cond: impl Fn() -> bool, limit: std::time::Duration) -> bool {
+    let t0 = std::time::Instant::now();
+    let mut i = 0u32;
+    while !cond() {
+        i += 1;
+        if i < 2000 {
+            std::hint::spin_loop();
+        } else {
+            std::thread::yield_now();
+            if i % 64 == 0 && t0.elapsed() > limit {
+                return false;
+            }
+        }
+    }
+    true
+}
+
+struct DrainStats {
+    events: usize,
+    dup_rounds: usize,
+    missing_values: usize,
+    gate_timeouts: usize,
+    bad_shape: usize,
+}
+
+fn drain_event(mode: &str, recorded: usize, strict: bool, listed: bool, nsnaps: usize, snaps: &[Option<Vec<i64>>], out: &mut Writer, st: &mut DrainStats) {
+    out.put(&json!({"ev": "reset", "recs": 1, "w": 1_000_000}));
+    st.events += 2;
+    if snaps.iter().any(|s| s.is_none()) {
+        st.bad_shape += 1;
+        out.put(&json!({"ev": "panic", "r": 1, "op": "drain snapshot without exactly one histogram"}));
+        return;
+    }
+    let lists: Vec<&Vec<i64>> = snaps.iter().map(|s| s.as_ref().unwrap()).filter(|s| !s.is_empty()).collect();
+    // harness-side tally (information only; the verdict is TLC's)
+    let mut seen = vec![0u32; recorded + 1];
+    let mut dup = false;
+    for l in &lists {
+        for &v in l.iter() {
+            if v >= 1 && (v as usize) <= recorded {
+                seen[v as usize] += 1;
+                if seen[v as usize] > 1 {
+                    dup = true;
+                }
+            }
+        }
+    }
+    if dup {
+        st.dup_rounds += 1;
+    }
+    st.missing_values += seen[1..].iter().filter(|c| **c == 0).count();
+    // nsnaps = snapshots taken in all (also the empty ones, which are not listed), writers = recording threads
+    out.put(&json!({"ev": "drain", "mode": mode, "recorded": recorded, "strict": strict, "listed": listed,
+                    "nsnaps": nsnaps, "writers": 1, "snaps": lists}));
+}
+
+fn drains_a(rounds: usize, gated: bool, rng: &mut StdRng, out: &mut Writer, st: &mut DrainStats) {
+    for round in 0..rounds {
+        let k: usize = rng.random_range(2..=4);
+        let n: usize = if gated { rng.random_range(1..200) } else { rng.random_range(50..1500) };
+        let rec = DebuggingRecorder::new();
+        let snap = rec.snapshotter();
+        let key = build_key(1 + (round % 3) as i64, (round % NLSETS as usize) as i64, (round % 6) as i64);
+        let h = rec.register_histogram(&key, &META);
+        for v in 1..=n {
+            h.record(v as f64);
+        }
+        // nothing is recorded from here on
+        let start = AtomicUsize::new(0);
+        let gate = Arc::new(AtomicUsize::new(0));
+        let tmo = Arc::new(AtomicUsize::new(0));
+        let mut snaps: Vec<Option<Vec<i64>>> = vec![];
+        std::thread::scope(|sc| {
+            let hs: Vec<_> = (0..k)
+                .map(|_| {
+                    let s = snap.clone();
+                    let (start, gate, tmo) = (&start, gate.clone(), tmo.clone());
+                    sc.spawn(move || {
+                        if gated {
+                            let (g2, t2) = (gate.clone(), tmo.clone());
+                            metrics::verif::install(Box::new(move |site, _| {
+                                if site == "clr.load.pre" && GATE_ARMED.with(|c| c.replace(false)) {
+                                    g2.fetch_add(1, AO::AcqRel);
+                                    if !spin_until(&g2, k, Some(std::time::Duration::from_secs(5))) {
+                                        t2.fetch_add(1, AO::Relaxed);
+                                    }
+                                }
+                            }));
+                            GATE_ARMED.with(|c| c.set(true));
+                        }
+                        start.fetch_add(1, AO::AcqRel);
+                        spin_until(start, k, None);
+                        let r = catch_unwind(AssertUnwindSafe(|| hist_values(&s))).unwrap_or(None);
+                        if gated {
+                            metrics::verif::clear();
+                        }
+                        r
+                    })
+                })
+                .collect();
+            for j in hs {
+                snaps.push(j.join().unwrap_or(None));
+            }
+        });
+        snaps.push(hist_values(&snap)); // whatever the concurrent snapshots did not report is still there
+        st.gate_timeouts += tmo.load(AO::Relaxed);
+        drain_event(if gated { "A-gated" } else { "A-free" }, n, true, false, snaps.len(), &snaps, out, st);
+    }
+}
+
+fn drains_b_gated(rounds: usize, rng: &mut StdRng, out: &mut Writer, st: &mut DrainStats) {
+    for round in 0..rounds {
+        let iters: usize = rng.random_range(2..7);
+        let before: Vec<usize> = (0..iters).map(|_| rng.random_range(0..4)).collect();
+        let rec = DebuggingRecorder::new();
+        let snap = rec.snapshotter();
+        let key = build_key(1 + (round % 3) as i64, (round % NLSETS as usize) as i64, (round % 6) as i64);
+        let h = rec.register_histogram(&key, &META);
+        let wready = AtomicUsize::new(0); // writer finished the values preceding snapshot j
+        let atgate = Arc::new(AtomicUsize::new(0)); // snapshotter is parked at clr.load.pre of snapshot j
+        let pushed = Arc::new(AtomicUsize::new(0)); // writer recorded the in-window value of snapshot j
+        let sdone = AtomicUsize::new(0); // snapshot j returned
+        let tmo = Arc::new(AtomicUsize::new(0));
+        let limit = std::time::Duration::from_secs(5);
+        let mut snaps: Vec<Option<Vec<i64>>> = vec![];
+        let mut total = 0usize;
+        std::thread::scope(|sc| {
+            let (wready, sdone, before) = (&wready, &sdone, &before);
+            let (atgate_w, pushed_w) = (atgate.clone(), pushed.clone());
+            let writer = sc.spawn(move || {
+                let mut next = 1usize;
+                for j in 1..=iters {
+                    for _ in 0..before[j - 1] {
+                        h.record(next as f64);
+                        next += 1;
+                    }
+                    wready.store(j, AO::Release);
+                    wait_for(|| atgate_w.load(AO::Acquire) >= j || sdone.load(AO::Acquire) >= j, limit);
+                    if atgate_w.load(AO::Acquire) >= j && sdone.load(AO::Acquire) < j {
+                        h.record(next as f64); // returns before the snapshot goes on
+                        next += 1;
+                    }
+                    pushed_w.store(j, AO::Release);
+                    wait_for(|| sdone.load(AO::Acquire) >= j, limit);
+                }
+                next - 1
+            });
+            let (ag, pu, t2) = (atgate.clone(), pushed.clone(), tmo.clone());
+            let cur = Arc::new(AtomicUsize::new(0));
+            let cur_h = cur.clone();
+            metrics::verif::install(Box::new(move |site, _| {
+                if site == "clr.load.pre" && GATE_ARMED.with(|c| c.replace(false)) {
+                    let j = cur_h.load(AO::Acquire);
+                    ag.store(j, AO::Release);
+                    if !wait_for(|| pu.load(AO::Acquire) >= j, std::time::Duration::from_secs(5)) {
+                        t2.fetch_add(1, AO::Relaxed);
+                    }
+                }
+            }));
+            for j in 1..=iters {
+                wait_for(|| wready.load(AO::Acquire) >= j, limit);
+                cur.store(j, AO::Release);
+                GATE_ARMED.with(|c| c.set(true));
+                snaps.push(catch_unwind(AssertUnwindSafe(|| hist_values(&snap))).unwrap_or(None));
+                GATE_ARMED.with(|c| c.set(false));
+                sdone.store(j, AO::Release);
+            }
+            metrics::verif::clear();
+            total = writer.join().unwrap_or(0);
+        });
+        snaps.push(hist_values(&snap));
+        st.gate_timeouts += tmo.load(AO::Relaxed);
+        // a hand-shake that timed out may have let a record() overlap the drain: then the round is not strict
+        drain_event("B-gated", total, tmo.load(AO::Relaxed) == 0, false, snaps.len(), &snaps, out, st);
+    }
+}
+
+fn drains_b_free(rounds: usize, listed: bool, rng: &mut StdRng, out: &mut Writer, st: &mut DrainStats) {
+    for round in 0..rounds {
+        let m: usize = rng.random_range(500..4000);
+        let rec = DebuggingRecorder::new();
+        let snap = rec.snapshotter();
+        let key = build_key(1 + (round % 3) as i64, (round % NLSETS as usize) as i64, (round % 6) as i64);
+        let h = rec.register_histogram(&key, &META);
+        let done = AtomicBool::new(false);
+        let go = AtomicBool::new(false);
+        let mut snaps: Vec<Option<Vec<i64>>> = vec![];
+        let mut nsnaps = 2usize;
+        std::thread::scope(|sc| {
+            let (done, go) = (&done, &go);
+            sc.spawn(move || {
+                while !go.load(AO::Acquire) {
+                    std::hint::spin_loop();
+                }
+                for v in 1..=m {
+                    h.record(v as f64);
+                }
+                done.store(true, AO::Release);
+            });
+            go.store(true, AO::Release);
+            while !done.load(AO::Acquire) {
+                let r = catch_unwind(AssertUnwindSafe(|| hist_values(&snap))).unwrap_or(None);
+                nsnaps += 1;
+                if r.as_ref().map(|v| !v.is_empty()).unwrap_or(true) {
+                    snaps.push(r);
+                }
+            }
+        });
+        snaps.push(hist_values(&snap));
+        snaps.push(hist_values(&snap));
+        drain_event("B-free", m, false, listed, nsnaps, &snaps, out, st);
+    }
+}
+
+/// Directed witness of the inherited bucket finding CF05a on the real recorder: the writer is parked at the bucket's
+/// `blk.claim.pre` point (tail loaded, slot not claimed yet) while a complete snapshot runs, then released.
+fn drains_cf05a(rounds: usize, listed: bool, rng: &mut StdRng, out: &mut Writer, st: &mut DrainStats) {
+    for round in 0..rounds {
+        let pre: usize = rng.random_range(1..40);
+        let rec = DebuggingRecorder::new();
+        let snap = rec.snapshotter();
+        let key = build_key(1 + (round % 3) as i64, (round % NLSETS as usize) as i64, (round % 6) as i64);
+        let h = rec.register_histogram(&key, &META);
+        let parked = Arc::new(AtomicBool::new(false));
+        let release = Arc::new(AtomicBool::new(false));
+        let wdone = AtomicBool::new(false);
+        let limit = std::time::Duration::from_secs(5);
+        let mut snaps: Vec<Option<Vec<i64>>> = vec![];
+        std::thread::scope(|sc| {
+            let (p2, r2, wdone) = (parked.clone(), release.clone(), &wdone);
+            sc.spawn(move || {
+                for v in 1..=pre {
+                    h.record(v as f64);
+                }
+                let (p3, r3) = (p2.clone(), r2.clone());
+                metrics::verif::install(Box::new(move |site, _| {
+                    if site == "blk.claim.pre" && GATE_ARMED.with(|c| c.replace(false)) {
+                        p3.store(true, AO::Release);
+                        wait_for(|| r3.load(AO::Acquire), std::time::Duration::from_secs(5));
+                    }
+                }));
+                GATE_ARMED.with(|c| c.set(true));
+                h.record((pre + 1) as f64);
+                GATE_ARMED.with(|c| c.set(false));
+                metrics::verif::clear();
+                wdone.store(true, AO::Release);
+            });
+            wait_for(|| parked.load(AO::Acquire) || wdone.load(AO::Acquire), limit);
+            snaps.push(catch_unwind(AssertUnwindSafe(|| hist_values(&snap))).unwrap_or(None));
+            release.store(true, AO::Release);
+        });
+        snaps.push(hist_values(&snap));
+        snaps.push(hist_values(&snap));
+        drain_event("B-cf05a", pre + 1, false, listed, snaps.len(), &snaps, out, st);
+    }
+}
+
 fn program_fingerprint(p: &Value) -> String {
     // what was asked of the recorders (not how keys were built)
     p["ops"].as_array().unwrap().iter().map(|o| format!("{}{}{}{}{}{}{}{}{};", o["ev"].as_str().unwrap(), o["r"], o["k"], o["n"], o["l"], o["u"], o["d"], o["op"], o["v"])).collect()
@@ -738,8 +1026,32 @@ fn main() {
                                   "events": ev, "bad_free_rounds": bad_free, "bad_gated_rounds": bad_gated, "gate_timeouts": tmo}));
             return;
         }
+        "drains" => {
+            let listed = args.num("listed", 0) == 1;
+            let mut ds = DrainStats { events: 0, dup_rounds: 0, missing_values: 0, gate_timeouts: 0, bad_shape: 0 };
+            let (af, ag, bg, bf): (usize, usize, usize, usize) = (args.num("a-free", 300), args.num("a-gated", 100), args.num("b-gated", 100), args.num("b-free", 40));
+            drains_a(af, false, &mut rng, &mut w, &mut ds);
+            let strict_missing_a = ds.missing_values;
+            drains_a(ag, true, &mut rng, &mut w, &mut ds);
+            drains_b_gated(bg, &mut rng, &mut w, &mut ds);
+            let strict_missing = ds.missing_values;
+            drains_b_free(bf, listed, &mut rng, &mut w, &mut ds);
+            let before_w = ds.missing_values;
+            let wit: usize = args.num("cf05a", 20);
+            drains_cf05a(wit, listed, &mut rng, &mut w, &mut ds);
+            let missing_witness = ds.missing_values - before_w;
+            ds.missing_values = before_w;
+            w.finish();
+            println!("{}", json!({"mode": mode, "seed": seed, "a_free": af, "a_gated": ag, "b_gated": bg, "b_free": bf,
+                                  "events": ds.events, "rounds_with_duplicates": ds.dup_rounds,
+                                  "missing_in_strict_rounds": strict_missing, "missing_in_a_free": strict_missing_a,
+                                  "missing_in_b_free": ds.missing_values - strict_missing,
+                                  "cf05a_witness_rounds": wit, "missing_in_cf05a_witness": missing_witness,
+                                  "gate_timeouts": ds.gate_timeouts, "bad_shape": ds.bad_shape}));
+            return;
+        }
         _ => {
-            eprintln!("usage: c19 record|replay|rounds ...");
+            eprintln!("usage: c19 record|replay|rounds|drains ...");
             std::process::exit(2);
         }
     }
